@@ -73,7 +73,17 @@ class MuckMonitor:
         detail = (f'payoffs {list(st.payoffs)} vs everybody-tables {want}; auto decisions {auto_out}; holes {holes} boards {boards} '
                   f'in pot {acc["in_pot"]} pots {info["pots"]}')
         if list(st.payoffs) != want:
-            ctx.violation('payoffs-differ-from-table-all', detail, sig=(self.prop, 'payoffs-differ'))
+            # isolate one cause: nobody who could win was discarded, and the engine's payoffs are exactly the award with the
+            # discarded (dead) hands removed - i.e. removing a dead hand changed the pot structure (pots with equal eligible
+            # sets merge) and with it the odd chips
+            shape = 'plain'
+            if all(exp[i] == 0 for i in range(n) if auto_out[i]):
+                live2 = [live[i] and not auto_out[i] for i in range(n)]
+                hands2 = [hands[i] if live2[i] else [[None] * len(tn)] * nb for i in range(n)]
+                exp2, _ = P.award(n, acc['contrib'], acc['pooled'], live2, hands2, nb, len(tn), st.divmod, lambda a: st.rake(a, st))
+                if exp2 is not None and list(st.payoffs) == [exp2[i] - acc['in_pot'][i] for i in range(n)]:
+                    shape = 'dead-hand-removed-pots-merge-odd-chips'
+            ctx.violation('payoffs-differ-from-table-all', detail, sig=(self.prop, 'payoffs-differ', shape))
         for i in range(n):
             if auto_out[i]:
                 ctx.counters['auto_' + auto_out[i]] += 1
